@@ -284,7 +284,7 @@ pub fn redeclarations(b: &Base) -> Vec<(String, Value)> {
     // trace exponent +8 / +40 with EXTRA FRI LAYERS of step 4 (so that the configuration stays valid: the
     // last-layer bound is unchanged), heights, FRI input size, layer count, commitments, witnesses and
     // log_n_steps all following
-    for d in [8u64, 40] {
+    for d in [8u64, 40, 44] {
         let k = (d / 4) as usize;
         let n_steps_now = b.value["config"]["fri"]["fri_step_sizes"].as_array().map(|a| a.len()).unwrap_or(0);
         if n_steps_now + k > 15 || n_inner == 0 {
@@ -408,7 +408,7 @@ pub fn run(ctx: &Ctx) -> Report {
         "exploration",
         "honest proofs of this build with every numeric field (configuration, public-input scalars, segment bounds, dynamic \
          parameters, nonce) set to each of {0, 1, 2^16, 2^32, 2^40, 2^64-1, 2^64, 2^128, p-1, p-2}, plus consistent \
-         re-declarations (trace exponent +1/+8/+40 with heights, FRI sizes and step count following; blow-up exponent 1/16 with \
+         re-declarations (trace exponent +1/+8/+40/+44 with heights, FRI sizes and step count following; blow-up exponent 1/16 with \
          heights; query count 48/49/2^16/2^40; friendly-layer count everywhere; segments near 2^64); each case verified in a worker \
          process (address space capped) with CPU time and peak RSS measured by getrusage. Oracle: CPU <= 5 s, RSS <= 1 GiB \
          (honest: ~0.1 s, ~20 MB), the worker neither dies nor has to be killed. Two further subjects run in the same workers: validate_public_input + \
